@@ -64,6 +64,8 @@ func (g *Gen) simpleUpdate() *LNode {
 
 func (g *Gen) listed(f func() *LNode) *LNode { return g.ctx(true, f) }
 
+const nContainers = 6
+
 var slots []slotDef
 
 func init() {
@@ -127,7 +129,9 @@ func init() {
 			return g.tail(LO("findAndModify", g.coll(), "query", LO(), "update", g.simpleUpdate(), "arrayFilters", LA(g.listed(g.Q))))
 		}, false},
 		{"update.updates.q", func(g *Gen) *LNode {
-			el := func() *LNode { return LO("q", g.listed(g.Q), "u", g.simpleUpdate(), "multi", LB(false).DC(), "upsert", LB(false).DC()) }
+			el := func() *LNode {
+				return LO("q", g.listed(g.Q), "u", g.simpleUpdate(), "multi", LB(false).DC(), "upsert", LB(false).DC())
+			}
 			other := func() *LNode {
 				return LO("q", g.listed(func() *LNode { return LO(g.FN(), g.sec()) }), "u", g.simpleUpdate())
 			}
@@ -240,6 +244,27 @@ func (g *Gen) buildCase(slot int, cmd *LNode, gate, container int) *Case {
 		g.nsNodes = g.nsNodes[:len(g.nsNodes)-1]
 		attr.Add("error", LS("Location12345: something failed"))
 		attr.Add("cmd", cmd)
+	case 4:
+		// an error report that carries the command AND its copy: the focus sits in the copy
+		attr.Add("ns", nsNode)
+		other := g.tail(LO("find", g.coll(), "filter", g.ctx(true, func() *LNode { return LO(g.FN(), g.sec()) })))
+		other.Zone = true
+		propagateLabels(other)
+		attr.Add("command", other)
+		attr.Add("error", LS("Location12345: something failed"))
+		attr.Add("cmd", cmd)
+	case 5:
+		// all three at once: the focus sits in the command, the other two hold literals of their own
+		attr.Add("ns", nsNode)
+		oc := g.tail(LO("aggregate", g.coll(), "pipeline", LA(LO("$match", g.ctx(true, func() *LNode { return LO(g.FN(), g.sec()) })))))
+		oc.Zone = true
+		propagateLabels(oc)
+		cp := g.tail(LO("count", g.coll(), "query", g.ctx(true, func() *LNode { return LO(g.FN(), g.sec()) })))
+		cp.Zone = true
+		propagateLabels(cp)
+		attr.Add("originatingCommand", oc)
+		attr.Add("cmd", cp)
+		attr.Add("command", cmd)
 	}
 	c.HasNS = hasNS
 	envMetrics(attr, g.o.RichEnv)
@@ -326,7 +351,7 @@ func genCase(x *X, o GenOpts) *Case {
 			ng = len(gates)
 		}
 		gate = x.Free(ng, "gate")
-		container = x.Free(4, "container")
+		container = x.Free(nContainers, "container")
 	}
 	if sd.write && container != 0 {
 		// WRITE-style documents only occur as the command of a WRITE line
